@@ -25,7 +25,12 @@ import skel_c15
 import nfc.clf
 import nfc.tag
 from sim.frontend_rec import (World, Script, TagProxy, RecEmulation, SkeletonTraces, excl_check, MISSING,
-                              SelfDeadlock, RecFrontend)
+                              SelfDeadlock, RecFrontend, RecDevice, RealScript, GuardedTransport, ThreadWatch)
+from sim import chipsets as cs
+import nfc.clf.acr122
+import nfc.clf.pn532
+import nfc.clf.pn533
+import nfc.clf.pn53x
 
 logging.disable(logging.CRITICAL)
 REAL_ACTIVATE = nfc.tag.activate
@@ -580,6 +585,126 @@ def random_case(rng):
     return c
 
 
+# ---------------------------------------------------------------- real drivers over fake host links
+T2_UID = bytes.fromhex('04112233445566')
+
+
+class TagInField(object):
+    """RF side of the host simulators of sim/chipsets.py: a Type 2 tag that answers InListPassiveTarget and READ"""
+    tag_present = True
+
+    def handle(self, cmd, data):
+        if cmd == 0x4A:
+            if self.tag_present and len(data) >= 2 and data[1] == 0:
+                return b'\x01\x01\x00\x44\x00\x07' + T2_UID
+            return b'\x00'
+        return super(TagInField, self).handle(cmd, data)
+
+
+class Acr122Tag(TagInField, cs.Acr122Sim):
+    pass
+
+
+class Pn53xTag(TagInField, cs.Pn53xSim):
+    pass
+
+
+def t2_remote(cmd):
+    cmd = bytes(cmd)
+    if cmd[:1] == b'\x30' and len(cmd) >= 2:
+        d = (T2_MEMORY + T2_MEMORY)[(cmd[1] % 16) * 4:(cmd[1] % 16) * 4 + 16]
+        return d + cs.crc_a(d)
+    return b''
+
+
+REAL_DRIVERS = {
+    'acr122': (lambda clock: Acr122Tag(clock), lambda tr: nfc.clf.acr122.init(tr)),
+    'pn533': (lambda clock: Pn53xTag('pn533', clock), lambda tr: nfc.clf.pn533.init(tr)),
+    'pn532': (lambda clock: Pn53xTag('pn532', clock, tty=True),
+              lambda tr: nfc.clf.pn532.Device(nfc.clf.pn532.Chipset(tr, logger=logging.getLogger('c15')), logger=logging.getLogger('c15'))),
+}
+DRIVER_TIME_MODULES = [nfc.clf.acr122, nfc.clf.pn532, nfc.clf.pn533, nfc.clf.pn53x]
+
+
+def real_driver_case(run, case):
+    """the real driver `case['driver']` on a fake host link under the recording frontend: open (driver init),
+    sense, exchange, connect(rdwr) with LED/buzzer and a presence loop, close.  Besides the usual trace
+    correspondence and entry monitor, every transport read/write must come from the lock holder."""
+    make_sim, make_dev = REAL_DRIVERS[case['driver']]
+    clock = cs.VClock()
+    saved = [(m, m.time) for m in DRIVER_TIME_MODULES if hasattr(m, 'time')]
+    cs.install_clock(clock, DRIVER_TIME_MODULES)
+    stats = {}
+    try:
+        with ThreadWatch() as watch, World() as w:
+            sim = make_sim(clock)
+            sim.remote = t2_remote
+            guard = GuardedTransport(sim, w.rec, lambda: w.clf, case['driver'])
+
+            def factory(path):
+                real = make_dev(guard)
+                real._path = 'sim:' + case['driver']
+                return RecDevice(w.rec, RealScript(real), lambda: w.clf)
+            clf = w.new_frontend()
+            w.connect_plan = [factory]
+            run.call(w, case, 'open', lambda: clf.open('sim'))
+            run.call(w, case, 'sense', lambda: clf.sense(RT('106A'), iterations=2, interval=0.01))
+            run.call(w, case, 'exchange', lambda: clf.exchange(b'\x30\x04', 0.1))
+            run.call(w, case, 'max_send_data_size', lambda: clf.max_send_data_size)
+            rounds = [case.get('present_rounds', 3)]
+
+            def present():
+                real_time.sleep(case.get('pause', 0.03))      # lets a timer of the driver fire (scaled by ThreadWatch)
+                rounds[0] -= 1
+                try:
+                    clf.exchange(b'\x30\x00', 0.1)
+                except nfc.clf.CommunicationError:
+                    return False
+                return rounds[0] >= 0
+            w.activate = lambda c, t: TagProxy(w, present)
+            budget = [case.get('terminate_after', 8)]
+
+            def terminate():
+                budget[0] -= 1
+                return budget[0] < 0
+            opts = {'on-connect': w.callback('options[on-connect]', lambda tag: True),
+                    'on-release': w.callback('options[on-release]', lambda tag: True),
+                    'on-discover': w.callback('options[on-discover]', lambda target: True),
+                    'beep-on-connect': case.get('beep', True), 'iterations': 1, 'interval': 0.01, 'targets': ['106A']}
+            run.call(w, case, 'connect', lambda: clf.connect(rdwr=opts, terminate=w.callback('terminate', terminate)))
+            real_time.sleep(case.get('pause', 0.03))
+            run.call(w, case, '__str__', lambda: str(clf))
+            run.call(w, case, 'close', clf.close)
+            alive = watch.join(2.0)
+            nprob = 0
+            for p in w.rec.problems:
+                if p['key'].startswith('unlocked-transport-io'):
+                    nprob += 1
+                    run.ck.violation(p['key'], p['what'], {'case': case, 'detail': p['data'],
+                                                           'threads_started_during_case': [type(t).__name__ for t in watch.started]})
+            stats = {'driver': case['driver'], 'transport_io': guard.io_count, 'unlocked_transport_io': nprob,
+                     'threads_started': [type(t).__name__ for t in watch.started], 'threads_still_alive': len(alive)}
+            run.ck.count('real-driver:' + case['driver'])
+            run.ck.count('transport-io', guard.io_count)
+            bad = excl_check(w.rec.events)
+            if bad is not None and not w.rec.problems:
+                run.ck.violation('schedule-unsafe:real-driver', 'recorded schedule violates the exclusion predicate: ' + bad[1],
+                                 {'case': case, 'index': bad[0]})
+    finally:
+        for m, t in saved:
+            m.time = t
+    return stats
+
+
+def real_driver_cases(quick):
+    cs_ = []
+    for drv in ('acr122', 'pn533', 'pn532'):
+        for beep in (True, False):
+            cs_.append({'op': 'real-driver', 'driver': drv, 'beep': beep, 'present_rounds': 3, 'terminate_after': 8})
+        cs_.append({'op': 'real-driver', 'driver': drv, 'beep': True, 'present_rounds': 6, 'terminate_after': 3})
+    return cs_ if not quick else [c for c in cs_ if c['driver'] != 'pn532' or c['present_rounds'] == 3 and c['beep']]
+
+
 # ---------------------------------------------------------------- multi-thread stress (supporting evidence only)
 def stress(ck, seconds, nthreads, cap=4000):
     import random
@@ -700,12 +825,25 @@ def main():
                       'not counted as driver calls; Device.__str__/vendor_name/product_name/path do not drive the hardware',
                       '`if self.device:` is read as `self.device is not None` (driver objects define neither __bool__ nor __len__)',
                       'pre-emption inside a driver method and the drivers themselves are outside the model']
-    ck.coq(gen=['FrontendSkel'], targets=['Skel/LockCheck.vo', 'Bridge/C15Skel.vo'], props='C15')
+    ck.coq(gen=['FrontendSkel', 'DriverScan'], targets=['Skel/LockCheck.vo', 'Bridge/C15Skel.vo', 'Bridge/C15Drivers.vo'], props='C15')
     if any('Bridge/C15Skel' in b or 'not built' in b for b in ck.broken) and not any(b.startswith('translation') for b in ck.broken):
         rej = checker_rejects()
         if rej is not None:
             ck.cov['checker_rejects_methods'] = rej
             ck.broken.append('LockCheck.chk rejects the regenerated skeleton of: %s' % ', '.join(rej))
+    try:
+        import re
+        scan = skel_c15.scan_drivers(REPO)
+        pol = open(os.path.join(COQ, 'Skel', 'DriverPolicy.v')).read()
+        allowed = set(re.findall(r'"([^"]+)"', pol[pol.index('Definition allowed_imports'):pol.index('Definition expected_modules')]))
+        where = ['%s:%d imports %s (not on the whitelist of Skel/DriverPolicy.v)' % (f, l, m) for f, l, m in scan['imports'] if m not in allowed]
+        where += ['%s:%d %s' % (f, l, w) for f, l, w in scan['flags']]
+        ck.cov['driver_scan'] = {'modules': scan['modules'], 'imports': sorted(set(m for _f, _l, m in scan['imports'])), 'findings': where}
+        if where:
+            ck.broken.append('driver modules may run driver/transport code outside the calling thread: ' + '; '.join(where[:12]))
+    except Exception as e:  # noqa: fail closed
+        if not any(b.startswith('translation DriverScan') for b in ck.broken):
+            ck.broken.append('driver scan failed: %s' % e)
     if MISSING:
         ck.broken.append('nfc.clf.device.Device has public methods the recording driver does not know: %s' % MISSING)
     try:
@@ -729,7 +867,9 @@ def main():
     if ck.replay:
         data = json.load(open(ck.replay))
         case = data.get('case', {}).get('case')
-        if case:
+        if case and case.get('op') == 'real-driver':
+            real_driver_case(run, case)
+        elif case:
             run.run_case(case)
         else:
             stress(ck, 3, 4)
@@ -744,6 +884,7 @@ def main():
         cases.append(random_case(ck.rng))
     for c in cases:
         run.run_case(c)
+    ck.cov['real_drivers'] = [real_driver_case(run, c) for c in real_driver_cases(quick)]
     st = stress(ck, 4 if quick else 60, 4 if quick else 6, 4000 if quick else 60000)
     if not quick and not ck.broken:
         # independent re-check of the compiled libraries (kernel re-typechecks Skel, Gen and Bridge)
